@@ -3,6 +3,7 @@
 -/
 import BorshModel.Lemmas.Safe
 import BorshModel.Theorems.C05
+import BorshModel.Lemmas.ErrExt
 namespace Borsh
 
 /-- For every type, every byte string and both key-order modes: if `deserialize` on a slice
@@ -38,6 +39,64 @@ theorem C16_leftover_partial (st : Bool) (t : Ty) (v : Val) (bs x : Bytes)
     (hx : x ≠ []) :
     fromSlice st t (bs ++ x) = .err ⟨.invalidData, .notAllBytesRead⟩ :=
   C05_trailing_rejected_partial st t v bs x hp hw hv he hx
+
+/-- an error other than the unexpected-length one is independent of what follows the bytes that
+caused it: it is reported in exactly the same way on every extension of the input (every type, both
+modes) -/
+theorem C16_error_stable (st : Bool) (t : Ty) (p s : Bytes) (e : Err)
+    (h : deserialize st t p = .err e) (hne : e ≠ eUnexpectedLength) :
+    deserialize st t (p ++ s) = .err e :=
+  de_errext_all t st p e s h hne
+
+/-- **Truncated input reports the unexpected-length message**: every proper prefix of the
+encoding of a value — cut at any offset, inside a length prefix, a tag, a string, a nested
+collection — is rejected by every slice entry point with `InvalidData`, "Unexpected length of
+input"; no other message, no other kind. -/
+theorem C16_truncated_partial (st : Bool) (t : Ty) (v : Val) (full p q : Bytes)
+    (hp : keysOk t = true) (hw : WfTy t = true) (hv : HasTy t v = true) (he : toVec t v = .ok full)
+    (hpq : full = p ++ q) (hq : q ≠ []) :
+    deserialize st t p = .err ⟨.invalidData, .unexpectedLength⟩ ∧
+    fromSlice st t p = .err ⟨.invalidData, .unexpectedLength⟩ := by
+  have hfull : deserialize st t (p ++ q) = .ok (canon t v, []) := by
+    have := C05_exact_consumption_partial st t v full [] hp hw hv he
+    simpa [hpq] using this
+  have key : deserialize st t p = .err eUnexpectedLength := by
+    cases hd : deserialize st t p with
+    | ok r =>
+      obtain ⟨v', r'⟩ := r
+      have := C05_extension st t p q r' v' hd
+      rw [hfull] at this
+      simp only [Out.ok.injEq, Prod.mk.injEq] at this
+      have h2 : (r' ++ q).length = 0 := by rw [← this.2]; rfl
+      have : q = [] := by
+        cases q with
+        | nil => rfl
+        | cons b bs => simp at h2
+      exact absurd this hq
+    | err e =>
+      by_cases hne : e = eUnexpectedLength
+      · rw [hne]
+      · have := C16_error_stable st t p q e hd hne
+        rw [hfull] at this; cases this
+    | panic pn =>
+      have := de_safe_all t st p
+      unfold deserialize at hd
+      rw [hd] at this
+      exact absurd this (by simp [Out.safe])
+  refine ⟨key, ?_⟩
+  unfold fromSlice
+  rw [key]; rfl
+
+/-- non-vacuity: a map of strings to optional pairs, cut inside the second key -/
+example :
+    let t := Ty.map .btreeMap (.str .string) (Ty.option (Ty.tuple [.int .u16, .bool]))
+    let v := Val.list [.list [.blob [97], .variant 1 [.list [.int 513, .bool true]]],
+                       .list [.blob [98, 99], .variant 0 []]]
+    (keysOk t && WfTy t && HasTy t v &&
+     (toVec t v).okBytes [2, 0, 0, 0, 1, 0, 0, 0, 97, 1, 1, 2, 1, 2, 0, 0, 0, 98, 99, 0] &&
+     (fromSlice true t [2, 0, 0, 0, 1, 0, 0, 0, 97, 1, 1, 2, 1, 2, 0, 0, 0, 98]).errIs
+        ⟨.invalidData, .unexpectedLength⟩) = true := by
+  decide +kernel
 
 /-- zero-sized collections report the public zero-sized-types message, whatever the input -/
 theorem C16_zst (st : Bool) (k : SeqK) (t : Ty) (bs : Bytes) (hz : memZero t = true)
